@@ -80,6 +80,40 @@ impl fmt::Debug for DD {
     }
 }
 
+/// A value whose Display AND Debug impls panic: formatting it inside the collector's visitor unwinds through the
+/// dispatcher (`get_default`), the collector callback and the macro.  Used by the `+p` phases: the panic is caught, then
+/// the ordinary corpus runs on the same thread under the same scoped default.
+pub struct Boom;
+impl fmt::Display for Boom {
+    fn fmt(&self, _: &mut fmt::Formatter<'_>) -> fmt::Result {
+        panic!("Boom: Display")
+    }
+}
+impl fmt::Debug for Boom {
+    fn fmt(&self, _: &mut fmt::Formatter<'_>) -> fmt::Result {
+        panic!("Boom: Debug")
+    }
+}
+
+/// One of three recordings of a panicking value; returns whether a panic was caught.
+pub fn panic_probe(k: usize) -> bool {
+    let r = std::panic::catch_unwind(|| match k % 3 {
+        0 => {
+            tracing::event!(tracing::Level::ERROR, boom = %Boom, after = 1u8);
+        }
+        1 => {
+            let sp = tracing::span!(tracing::Level::ERROR, "boom_span", boom = ?Boom);
+            drop(sp);
+        }
+        _ => {
+            let sp = tracing::span!(tracing::Level::ERROR, "boom_record", late = tracing::field::Empty);
+            sp.record("late", tracing::field::display(Boom));
+            drop(sp);
+        }
+    });
+    r.is_err()
+}
+
 #[derive(Debug)]
 pub struct ChainErr {
     pub msg: String,
@@ -509,7 +543,10 @@ pub fn run_all(invs: &[(u32, Inv)], data_path: &str, phases: &[String], only: Op
     logside::install();
     for (pi, ph) in phases.iter().enumerate() {
         let mut parts = ph.split(':');
-        let mode_s = parts.next().unwrap();
+        let mode_full = parts.next().unwrap();
+        // `<mode>+p`: before every round a value whose Display/Debug panics is recorded (panic caught), then the round
+        let probe = mode_full.ends_with("+p");
+        let mode_s = mode_full.trim_end_matches("+p");
         let rounds: usize = parts.next().map(|s| s.parse().unwrap()).unwrap_or(1);
         let first: usize = parts.next().map(|s| s.parse().unwrap()).unwrap_or(0);
         // `nd*` phases: NO dispatcher at all (and none may have been set before: `dispatch::has_been_set()` is a
@@ -529,14 +566,20 @@ pub fn run_all(invs: &[(u32, Inv)], data_path: &str, phases: &[String], only: Op
             d.parent = tracing::span!(tracing::Level::ERROR, "the_parent", pf = 1u8);
             let pid = d.parent.id().map(|i| i.into_u64()).unwrap_or(0);
             println!(
-                "{{\"phase\":{},\"mode\":\"{}\",\"parent_id\":{},\"has_been_set\":{}}}",
+                "{{\"phase\":{},\"mode\":\"{}\",\"parent_id\":{},\"has_been_set\":{},\"panic_probe\":{}}}",
                 pi,
                 mode_s,
                 pid,
-                tracing::dispatch::has_been_set()
+                tracing::dispatch::has_been_set(),
+                probe
             );
             for r in first..first + rounds {
                 d.r = r;
+                if probe {
+                    reset();
+                    let caught = panic_probe(r);
+                    println!("{{\"probe\":{},\"r\":{},\"ph\":{},\"caught\":{}}}", r % 3, r, pi, caught);
+                }
                 for (id, f) in invs {
                     if let Some(o) = only {
                         if o != *id {
